@@ -370,6 +370,20 @@ impl Transaction {
         Ok(())
     }
 
+    /// The Proposition this transaction has already staged for creation under `tuple_key`.
+    ///
+    /// `Store::find_proposition` reads the store, and a Proposition an earlier clause of the
+    /// same statement created is still only staged there (its shell carries a `pending:`
+    /// placeholder key). Resolve-or-create has to look here as well, or the same tuple ensured
+    /// twice in one statement is staged twice and the second row fails on the unique
+    /// `tuple_key` index in the middle of the commit's write loop.
+    pub fn staged_new_proposition(&self, tuple_key: &str) -> Option<ElementId> {
+        self.staged.iter().find_map(|(id, staged)| match &staged.row {
+            Element::Proposition(row) if staged.is_new && row.tuple_key == tuple_key => Some(*id),
+            _ => None,
+        })
+    }
+
     /// Loads an existing element for modification, or returns the staged copy.
     ///
     /// Read-your-writes inside the transaction (§27): a clause that reads an
